@@ -573,8 +573,7 @@ static RETCODE adfFileSeekOFS_ ( struct AdfFile * const file,
     uint32_t offset = 0;
     while ( offset < pos ) {
         unsigned size = min ( pos - offset, (unsigned) ( blockSize - file->posInDataBlk ) );
-        file->pos += size;
-        offset += size;
+        offset += size;         /* (file->pos already holds the target position) */
         file->posInDataBlk += size;
         if ( file->posInDataBlk == blockSize && offset < pos ) {
             if ( adfFileReadNextBlock ( file ) != RC_OK ) {
